@@ -25,15 +25,26 @@ class MarshalEvent(Event):
 class InfoEvent(Event):
     error: ConstraintViolatedError
 
+    def __eq__(self, other):
+        # exceptions compare by identity: without this, two decodes of the same input would never yield equal events
+        return (
+            type(other) is type(self)
+            and type(other.error) is type(self.error)
+            and str(other.error) == str(self.error)
+        )
+
+    def __hash__(self):
+        return hash((type(self), type(self.error), str(self.error)))
+
     def __str__(self):
         return f"Warning: {self.error}"
 
 
-@dataclass(frozen=True)
+@dataclass(frozen=True, eq=False)
 class WarningEvent(InfoEvent):
     pass
 
 
-@dataclass(frozen=True)
+@dataclass(frozen=True, eq=False)
 class ErrorEvent(InfoEvent):
     pass
